@@ -13,7 +13,7 @@ VERIF = os.path.dirname(os.path.dirname(os.path.abspath(__file__)))
 
 class Target(object):
     def __init__(self, key, contract, label=None, inline_all=False, timeout=None, jobs=4, obl_prefix=None,
-                 native=None, tags=None, order=None):
+                 native=None, tags=None, order=None, track_dict_len=False):
         self.key = key
         self.contract = contract
         self.label = label or key
@@ -23,6 +23,7 @@ class Target(object):
         self.obl_prefix = obl_prefix
         self.native = native          # how to call the real unit natively (for replay / sanity samples)
         self.order = order            # solver order for this target (default z3new, cvc5, z3old)
+        self.track_dict_len = track_dict_len   # instantiate the cardinality law of len(dict) at writes
         # tags: clause labels look like "C03:handed-over"; with tags=("C03",) only the tagged post / pre@site
         # clauses of those properties are kept (untagged obligations -- safety, frames, type preconditions,
         # covers -- always stay: they are what makes the callee contracts usable at all)
@@ -98,7 +99,7 @@ class Property(object):
 
     def lemma(self, key, native=None, **ckw):
         tkw = {}
-        for k in ("label", "inline_all", "timeout", "jobs", "obl_prefix", "tags", "order"):
+        for k in ("label", "inline_all", "timeout", "jobs", "obl_prefix", "tags", "order", "track_dict_len"):
             if k in ckw:
                 tkw[k] = ckw.pop(k)
         ckw.setdefault("raises", {})
